@@ -91,7 +91,7 @@ def run(ctx):
         batches.append(out)
     parts = []
     for b in batches:
-        lines = open(b).read().splitlines()
+        lines = nl_lines(b)
         os.remove(b)
         step = 20000
         for i in range(0, len(lines), step):
